@@ -194,7 +194,12 @@ def generate(rng, n, tier):
                 if rng.random() < 0.3:
                     v = [abs(t) for t in v]
                 p = rng.choice([0, 1, 1, 2, 2, "inf", "inf", 3, 4, "-inf", 0.5, 1.5, 2.5])
-                yield dict(kind=kind, which=which, v=v, p=p)
+                c = dict(kind=kind, which=which, v=v, p=p)
+                if v and rng.random() < 0.2:
+                    # a tiny non-zero entry beside ordinary ones (its p-th power underflows): the norm is still the textbook one
+                    v = list(v); v[rng.randrange(len(v))] = rng.choice([1e-200, -1e-200, 1e-160, 5e-324, 2.5e-310])
+                    c.update(v=v, tiny=True)
+                yield c
             else:
                 k = 0 if rng.random() < 0.04 else _n(rng)
                 pair = rng.random() < 0.6
@@ -869,7 +874,9 @@ def coq_terms(case, obs):
             T.append("oqll false (impose_collapse NumQ %s %s %s) %s" % (ps, x, w, _oqll(r)))
     elif k == "norms":
         r = obs["r"]["v"]
-        if case["which"] == "Lnorm":
+        if case["which"] == "Lnorm" and case.get("tiny"):
+            pass      # entries at the edge of the float range: judged by the exact-rational oracle only
+        elif case["which"] == "Lnorm":
             v, p = _ql(case["v"]), case["p"]
             if p == 0:
                 T.append("oq true (Some (Lnorm0 NumQ %s)) %s" % (v, _oq(r)))
